@@ -525,6 +525,12 @@ func (d *DiskKVTest) Open(stopc <-chan struct{}) (uint64, error) {
 		}
 	} else {
 		dbdir = getNewRandomDBDirName(dir, d.fs)
+		// the directory has to be durable before the pointer naming it is
+		// published, otherwise a crash in between leaves a pointer to a
+		// directory that does not exist and every later Open panics.
+		if err := MkdirAll(dbdir, d.fs); err != nil {
+			return 0, err
+		}
 		if err := saveCurrentDBDirName(dir, dbdir, d.fs); err != nil {
 			return 0, err
 		}
